@@ -643,6 +643,23 @@ pub fn replay_main(args: &[String]) -> i32 {
             }
         };
     }
+    if v.get("format").and_then(|x| x.as_str()) == Some("flurry-sim-c19-1") {
+        return match crate::c19::replay(&v) {
+            Some(Err(d)) => {
+                println!("REPRODUCED property=C19 class=serde-stream");
+                println!("{}", d);
+                1
+            }
+            Some(Ok(())) => {
+                println!("NOT-REPRODUCED property=C19");
+                0
+            }
+            None => {
+                eprintln!("malformed replay file");
+                2
+            }
+        };
+    }
     if v.get("format").and_then(|x| x.as_str()) == Some("flurry-sim-c14-1") {
         let tier = v.get("tier").and_then(|x| x.as_str()).unwrap_or("quick").to_string();
         let seed = v.get("seed").and_then(|x| x.as_u64()).unwrap_or(DEFAULT_SEED);
@@ -1121,6 +1138,37 @@ pub fn check_main(args: &[String]) -> i32 {
             }
         }
     }
+    if prop == "C19" {
+        let (viol, st) = crate::c19::run(tier, base);
+        pre_extra.insert("serde_cases".into(), st.cases);
+        pre_extra.insert("serde_round_trips".into(), st.round_trips);
+        pre_extra.insert("serde_generated_documents".into(), st.documents);
+        pre_extra.insert("serde_documents_with_repeated_keys".into(), st.with_repeats);
+        pre_extra.insert("serde_fault_free_cases".into(), st.fault_free);
+        pre_extra.insert("serde_stream_faults_fired".into(), st.fired.short + st.fired.interrupted + st.fired.error + st.fired.eof);
+        pre_extra.insert("serde_fault_short_transfer".into(), st.fired.short);
+        pre_extra.insert("serde_fault_interrupted".into(), st.fired.interrupted);
+        pre_extra.insert("serde_fault_hard_error".into(), st.fired.error);
+        pre_extra.insert("serde_fault_eof_or_write_zero".into(), st.fired.eof);
+        pre_extra.insert("serde_reads_ok".into(), st.read_ok);
+        pre_extra.insert("serde_reads_failed_as_expected".into(), st.read_err);
+        pre_extra.insert("serde_writes_failed_as_expected".into(), st.write_err);
+        pre_extra.insert("serde_bytes_serialised".into(), st.bytes);
+        pre_samples = st.samples.iter().map(|s| json!({"serde_case": s})).collect();
+        println!(
+            "C19 serde half: {} cases ({} round trips, {} documents, {} with repeated keys, {} fault-free), faults fired: {} short, {} EINTR, {} error, {} EOF; {} violations",
+            st.cases, st.round_trips, st.documents, st.with_repeats, st.fault_free, st.fired.short, st.fired.interrupted, st.fired.error, st.fired.eof, viol.len()
+        );
+        let known = load_known();
+        for (cs, d, case) in viol {
+            let v = Violation { class: "serde-stream".into(), detail: d.clone() };
+            if let Some(k) = match_known(&known, prop, &v) {
+                println!("KNOWN-FINDING: property={} class={} {}", prop, k.class, k.text);
+            } else if pre_violation.is_none() {
+                pre_violation = Some(json!({"format": "flurry-sim-c19-1", "property": "C19", "tier": tier, "seed": base, "class": "serde-stream", "detail": d, "run_seed": cs, "index": 0, "case": case.to_json()}));
+            }
+        }
+    }
     let results = spawn_workers(prop, tier, base, total, workers, false);
     let wall = t0.elapsed().as_secs_f64();
     let mut agg = Agg::default();
@@ -1245,7 +1293,7 @@ pub fn report_violation(prop: &str, v: Value) -> i32 {
         let _ = std::fs::remove_file(&seedfile);
     }
     let by_seed = v.get("by_seed").and_then(|x| x.as_bool()).unwrap_or(false);
-    let is_seq = matches!(v.get("format").and_then(|x| x.as_str()), Some("flurry-sim-seq-1") | Some("flurry-sim-c14-1") | Some("flurry-sim-stamp-1"));
+    let is_seq = matches!(v.get("format").and_then(|x| x.as_str()), Some("flurry-sim-seq-1") | Some("flurry-sim-c14-1") | Some("flurry-sim-c19-1") | Some("flurry-sim-stamp-1"));
     let min = if by_seed || is_seq || std::env::var("VERIF_NO_MINIMISE").is_ok() { v.clone() } else { minimise(v.clone(), 90) };
     let _ = std::fs::write(format!("{}/{}-{}-{}-unminimised.json", dir, prop, class, v["run_seed"].as_u64().unwrap_or(0)), serde_json::to_string_pretty(&v).unwrap());
     let path = format!("{}/{}-{}-{}.json", dir, prop, class, v["run_seed"].as_u64().unwrap_or(0));
